@@ -49,6 +49,10 @@ def correspond(ctx, scale):
         for t in range(rng.choice([1, 2, 4])):
             b, n = rng.choice([(1, 1), (1, 3), (2, 3), (2, 6)])
             x = vqrec.grid(rng, (b, n, d * heads))
+            if t > 0 and (t + ci) % 4 == 3:
+                # threshold SCHEDULE on the live codebook (expiry switched on after a warm-up, or off): the step follows the threshold the module has now
+                cb.threshold_ema_dead_code = rng.choice([0, 1, 2, 0.5])
+                dist['live_threshold_changes'] = dist.get('live_threshold_changes', 0) + 1
             mode = rng.choice(['train'] * 5 + ['eval', 'frozen'])
             vq.train(mode != 'eval')
             ckw = {'freeze_codebook': True} if mode == 'frozen' else {}
@@ -83,6 +87,11 @@ def correspond(ctx, scale):
             dist['K_gt_batch'] += K > b * n * (1 if sep else heads)
             dist['heads'] += heads > 1
             dist['eval_frozen'] += mode != 'train'
+    # hyper-parameters are constructor arguments, not state (c03.cross_config_cases): a module that LOADS the state of a differently configured one
+    cc, cm, n_cc = c03.cross_config_cases(ctx, rng, scale, dist, failures, TOL_E, TOL_S)
+    cases += cc
+    meta += cm
+    evaluations += n_cc
     # cosine codebooks: after ANY training step with the EMA update every code - revived ones included - has unit norm (the selection metric is the
     # dot product with the stored code, which is the cosine only on the unit sphere).  Two routes hand `replace` samples that are not unit vectors:
     # the public multi-head expire_codes_ (vectors are normalised before the head split) and batches of norm below the l2norm eps
